@@ -109,3 +109,8 @@ def opaque(fn):
     supplied as a separate fact for every term it was called on (DESIGN 0.2).  Natively: the function."""
     fn.__opaque__ = True
     return fn
+
+
+def uf(name, *ints):
+    """an uninterpreted integer function (symbolically); natively it has no value"""
+    raise NotImplementedError("uf(%r, ...) has no native value" % name)
